@@ -299,6 +299,7 @@ func refParagraph(text string) (*refPara, string) {
 }
 
 func checkC09(p *Prog, rp *Report) {
+	defer stateRule(p, rp, "C09-STATE", p.Func("control", "Marshal"), p.Func("control", "Unmarshal"), p.Func("control", "ConvertToParagraph"), p.Method("control", "Decoder", "Decode"), p.Method("control", "Encoder", "Encode"))
 	rp.Explanation = "control.Marshal and (*Decoder).Decode are interpreted abstractly end to end on probe struct types built by the checker (string, renamed, required, skipped and multi-line strings; int, uint, bool; blank- and comma-separated string lists, an integer list; version.Version, dependency.Dependency, dependency.Arch and a list of Arch; a pointer to a version; with and without the embedded raw Paragraph), with package reflect replaced by a model over the abstract heap (DESIGN 3.C09), the writer by a recording oracle and the buffered reader by an oracle playing back exactly the text written. C09-DECODE: a document with every field decodes to the expected field values (custom types are decoded by their own UnmarshalControl, interpreted). C09-ROUND: decode, marshal, decode again: the second value equals the first field by field, the text is a fixpoint, and it lists exactly the expected keys in struct order (wire names, '-' skipped). C09-REQ: a required field is written even when empty and its absence on input is an error; empty optional strings, lists and nil pointers are omitted; field names are matched byte for byte (a key that differs only in case is an unknown field and does not satisfy a requirement). C09-MERGE: with the embedded Paragraph, unknown fields are re-emitted unchanged in their original position and known fields carry the struct's current values; Update / Set tables. C09-NOPANIC: no panic state on any of these runs, including nil pointers, nil slices and the zero struct. C09-KINDS: one single-field probe per supported kind round-trips on its own. C09-TYPES: every struct-typed field (or list element) of the repository's document types implements Marshallable on the value and Unmarshallable on the pointer; every other field kind is one that C09-KINDS found supported by both walkers."
 	rp.NotDecided = "probe values other than those of the tables (the walkers are data independent except for emptiness and the delimiter/strip sets, which the tables vary); pointer fields are encode-only in go-debian (the decoder has no pointer case), so they are covered by C09-NOPANIC only; whether writing 0/no for zero integers/booleans contradicts 'optional zero fields are omitted' (a matter of reading the statement; no rule is armed on it)."
 	rp.Trusted = []string{"go/types, go/ssa", "the reflect model of /verif/sa/reflectsim.go", "strconv, strings (models)", "deb822 reference model"}
